@@ -122,6 +122,25 @@ def run(ctx):
     i2 = ctx.run_vh(["lru-random", "-out", tr2, "-traces", 150 if quick else 1500, "-len", 80 if quick else 150])
     ok2, rej2 = ctx.validate_traces(tr2, "TraceLRU", TRACE_CFG % {"defcap": defcap})
     report_rejects(ctx, rej2, "random")
+    # (C) the typed front (cache.SearchCache: results filed under query + options) driven directly and validated against
+    # LRU.tla through TraceCacheLRU: a lookup hands back exactly the list most recently stored, whatever its length
+    import x03
+    tr3 = os.path.join(ctx.work, "lru-searchcache.ndjson")
+    i3 = ctx.run_vh(["lru-searchcache", "-out", tr3, "-traces", 60 if quick else 600, "-len", 60 if quick else 120])
+    sc_traces = x03.split(tr3)
+    bad = []
+    from concurrent.futures import ThreadPoolExecutor
+    with ThreadPoolExecutor(max_workers=6) as ex:
+        for b in ex.map(lambda k: x03.find_bad(ctx, sc_traces[k::6], "sc%d" % k), range(6)):
+            bad += b
+    for t, why in bad[:4]:
+        at = x03.last_ok(ctx, t)
+        ev = json.loads(t[at]) if at < len(t) else {}
+        ctx.violation("C12|searchcache|%s" % ev.get("op"), "history of the typed cache front rejected at event %d (%s): %s" % (at + 1, why, t[at][:300] if at < len(t) else "?"),
+                      {"origin": "searchcache", "rejected_at": at + 1, "events": [json.loads(e) for e in t[:at + 1]]}, name="searchcache")
+    ctx.cov["searchcache_histories"] = len(sc_traces)
+    ctx.cov["searchcache_events"] = i3.get("events")
+    ok2 += len(sc_traces) - len(bad)
     # binding self-test: one corrupted field must be rejected
     selftest(ctx, tr2, defcap)
     samples = [{"tour": tours[i][1], "init": tours[i][0]} for i in range(0, len(tours), max(1, len(tours) // 3))][:3]
